@@ -70,6 +70,19 @@ CLAIMED["C17"] = dict(
    note=TB + "Modelled, not verified: codec (utf8 in these runs), struct float unpacking (bit patterns compared).",
    design="DESIGN.md section 4, C17")
 
+CLAIMED["C02"] = dict(
+   technique="Lean 4 proof (xor algebra over an abstract 20-byte hash: completeness, soundness, sha corollary under an explicit second-preimage hypothesis; nonce well-formedness over the extracted alphabet; plugin step machines) + executable SHA-1 + differential execution of all four routes",
+   text="Theorems in lean/MimicProps/C02.lean: the scramble of the current or secondary password under the verification nonce is accepted (also junk-extended); "
+        "acceptance implies the first 20 bytes are p XOR H(nonce++stored) for a preimage p of a stored hash (and equal the scramble under an explicit "
+        "second-preimage hypothesis); nonces are 20 bytes from the extracted NUL-free alphabet and survive the greeting/rstrip; a fresh challenge "
+        "consumes 20 new draws and is the nonce later verified; COM_CHANGE_USER reuses exactly the greeting's bytes; clear-password accepts iff the "
+        "check accepts; no-login never accepts; OK is written iff a plugin decision vouched for the identity. Tie: the real Connection is driven over all "
+        "four routes with random identity providers and responses and compared packet-by-packet with Mimic.Auth.authenticate running the executable "
+        "SHA-1 (itself compared with hashlib); overlapping handshakes on shared plugin objects; reference predicate with hashlib as oracle. "
+        "Partial: non-repetition of random draws (SystemRandom) is not provable.",
+   note=TB + "Modelled, not verified: hashlib.sha1 (reference for the SHA-1 model), random.SystemRandom (replaced by a recording PRNG in the harness), bytes.fromhex.",
+   design="DESIGN.md section 4, C02")
+
 REASON_PENDING = "check not built yet (work in progress; see DESIGN.md section 9)"
 
 m = {
